@@ -4,6 +4,7 @@
 package dcex
 
 import (
+	"fmt"
 	"strings"
 
 	"verif/mc/diffrun"
@@ -261,12 +262,12 @@ func Program() diffrun.Program {
 	mod := diffrun.ModName(name)
 	r := func(s string) string { return strings.ReplaceAll(s, "MOD", mod) }
 	return diffrun.Program{Name: name, Files: map[string]string{
-		"main.go":              r(mainSrc),
-		"stub.s":               "// empty: lets the native toolchain accept body-less functions\n",
-		"lib/lib.go":           r(libSrc),
-		"lib/deep/deep.go":     deepSrc,
-		"lib/deep/int_js.go":   "//go:build js\n\npackage deep\n\ntype Int = int\n",
-		"lib/deep/int_ref.go":  "//go:build !js\n\npackage deep\n\ntype Int = int32\n",
+		"main.go":             r(mainSrc),
+		"stub.s":              "// empty: lets the native toolchain accept body-less functions\n",
+		"lib/lib.go":          r(libSrc),
+		"lib/deep/deep.go":    deepSrc,
+		"lib/deep/int_js.go":  "//go:build js\n\npackage deep\n\ntype Int = int\n",
+		"lib/deep/int_ref.go": "//go:build !js\n\npackage deep\n\ntype Int = int32\n",
 	}}
 }
 
@@ -296,4 +297,217 @@ func MorePanicInit() []diffrun.Program {
 		mk("mapnil", "var m map[string][]Int\nvar unused = m[\"k\"][0]\n"),
 		mk("recv", "var c = make(chan Int, 1)\nvar unused = func() Int { c <- 1; return 0 }()\nvar unused2 = <-c\nvar blocked = <-c\n"),
 	}
+}
+
+// InitFormsProgram: package-level variables that nothing refers to, initialised by every expression
+// form whose evaluation can be observed (calls in every operand position, builtins that write through
+// their arguments, receives, comma-ok forms, method values, generic calls ...), in main and in an
+// imported package. Go evaluates all of them; eliminating the variable must not eliminate the effect.
+func InitFormsProgram() diffrun.Program {
+	forms := []string{
+		`append(shared[:1], 7)`,
+		`copy(arr[:], []Int{5, 6})`,
+		`len(append(shared[:2], 8))`,
+		`cap(append(shared[:3], 9))`,
+		`func() Int { arr[3] = 9; return 1 }()`,
+		`*plog()`,
+		`arr[idxf()]`,
+		`T{f: lg("comp")}`,
+		`&T{lg("ptrcomp")}`,
+		`[]Int{lg("slicelit")}`,
+		`map[string]Int{"k": lg("maplit")}`,
+		`lg("bin") + 1`,
+		`-lg("neg")`,
+		`Int(lg("conv"))`,
+		`MyInt(lg("namedconv"))`,
+		`[1]Int{lg("arrlit")}[0]`,
+		`shared[idxf():]`,
+		`<-filled("recv")`,
+		`ifv.M()`,
+		`T.m(tv)`,
+		`tv.m`,
+		`gen[Int](lg("generic"))`,
+		`func() func() Int { lg("closure"); return nil }()`,
+		`"a" + slog("concat")`,
+		`complex(float64(lg("complex")), 0)`,
+		`struct{ a Int }{lg("anon")}.a`,
+		`append([]Int(nil), lg("appendarg"))`,
+		`[...]Int{lg("a0"), lg("a1")}`,
+		`&arr[idxf()]`,
+		`ptrT().f`,
+		`fnvar(lg("fnvar"))`,
+		`(*T).pm(ptrT())`,
+		`interface{}(lg("boxed"))`,
+		`[]byte(slog("tobytes"))`,
+		`string(rune(lg("torune")))`,
+		`lg("cmp") == 3`,
+		`!blog("not")`,
+		`blog("and") && blog("and2")`,
+		`mp[slog("mapidx")]`,
+		`len(slog("len"))`,
+		`new(T) == ptrT()`,
+	}
+	multi := []string{
+		`var NAMEa, NAMEb = two("PKG-two")`,
+		`var NAMEv, NAMEok = mp[slog("PKG-commaok-map")]`,
+		`var NAMEv, NAMEok = ifacef("PKG-commaok-assert").(Int)`,
+		`var NAMEv, NAMEok = <-filled("PKG-commaok-recv")`,
+		`var _, NAMEok = mp[slog("PKG-blank-first")]`,
+		`var NAMEv, _ = two("PKG-blank-second")`,
+		`var _, _ = two("PKG-both-blank")`,
+		`var NAMEx, NAMEy Int = lg("PKG-multi1"), lg("PKG-multi2")`,
+		`var _ = append(shared[:4], 3)`,
+		`var _ = copy(arr[2:], []Int{4})`,
+		`var _ = PKGdep + lg("PKG-uses-unused")`,
+		`var PKGdep = lg("PKG-dep")`,
+	}
+	helpers := `
+var log string
+
+type T struct{ f Int }
+type MyInt Int
+
+func (t T) m() Int   { log += "T.m;"; return t.f }
+func (t *T) pm() Int { log += "T.pm;"; return 1 }
+func (t T) M() Int   { log += "T.M;"; return 2 }
+
+var (
+	shared = make([]Int, 1, 8)
+	arr    [4]Int
+	mp     = map[string]Int{}
+	tv     = T{1}
+	ifv    interface{ M() Int } = T{2}
+	fnvar  = func(x Int) Int { log += "fnvar-called;"; return x }
+)
+
+func lg(s string) Int      { log += s + ";"; return Int(len(log)) }
+func slog(s string) string { log += s + ";"; return s }
+func blog(s string) bool   { log += s + ";"; return true }
+func plog() *Int           { log += "plog;"; return &arr[0] }
+func idxf() Int            { log += "idxf;"; return 1 }
+func ptrT() *T             { log += "ptrT;"; return &tv }
+func two(s string) (Int, Int) { log += s + ";"; return 1, 2 }
+func ifacef(s string) interface{} { log += s + ";"; return Int(1) }
+func filled(s string) chan Int { log += s + ";"; c := make(chan Int, 1); c <- 1; return c }
+func gen[X any](x X) X { log += "gen;"; return x }
+
+func State() string {
+	s := log + "|"
+	for _, v := range arr {
+		s += itoa(int64(v)) + ","
+	}
+	s += "|"
+	for _, v := range shared[:cap(shared)] {
+		s += itoa(int64(v)) + ","
+	}
+	return s + "|" + itoa(int64(len(mp)))
+}
+`
+	var mainB, libB strings.Builder
+	build := func(b *strings.Builder, pkg string) {
+		for i, f := range forms {
+			fmt.Fprintf(b, "var %su%d = %s\n", pkg, i, f)
+		}
+		for i, m := range multi {
+			b.WriteString(strings.ReplaceAll(strings.ReplaceAll(m, "NAME", fmt.Sprintf("%sm%d", pkg, i)), "PKG", pkg) + "\n")
+		}
+	}
+	mainB.WriteString("package main\n\nimport \"MOD/lib\"\n" + helpers + "\n")
+	build(&mainB, "main")
+	mainB.WriteString("\nfunc main() {\n\tprintln(\"C05/initforms/main\", State())\n\tprintln(\"C05/initforms/lib\", lib.State())\n}\n")
+	libB.WriteString("package lib\n" + helpers + "\n")
+	build(&libB, "lib")
+	libB.WriteString("\nfunc itoa(n int64) string {\n\tif n == 0 {\n\t\treturn \"0\"\n\t}\n\tneg := n < 0\n\tif neg {\n\t\tn = -n\n\t}\n\ts := \"\"\n\tfor n > 0 {\n\t\ts = string(rune('0'+n%10)) + s\n\t\tn /= 10\n\t}\n\tif neg {\n\t\ts = \"-\" + s\n\t}\n\treturn s\n}\n")
+	name := "c05_initforms"
+	mod := diffrun.ModName(name)
+	r := func(s string) string { return strings.ReplaceAll(s, "MOD", mod) }
+	return diffrun.Program{Name: name, Files: map[string]string{
+		"main.go":        r(mainB.String()),
+		"lib/lib.go":     libB.String(),
+		"lib/int_js.go":  "//go:build js\n\npackage lib\n\ntype Int = int\n",
+		"lib/int_ref.go": "//go:build !js\n\npackage lib\n\ntype Int = int32\n",
+	}}
+}
+
+// LinkChainProgram: go:linkname references that become reachable only through other linknamed
+// implementations (chains of 2 and 3 hops across packages, none of the implementations referenced by name).
+func LinkChainProgram() diffrun.Program {
+	name := "c05_linkchain"
+	mod := diffrun.ModName(name)
+	r := func(s string) string { return strings.ReplaceAll(s, "MOD", mod) }
+	return diffrun.Program{Name: name, Files: map[string]string{
+		"main.go": r(`package main
+
+import (
+	_ "unsafe"
+
+	_ "MOD/engine"
+	_ "MOD/lowlevel"
+	_ "MOD/deepest"
+)
+
+//go:linkname banner MOD/engine.banner
+func banner(s string) string
+
+//go:linkname viaMethod MOD/engine.(*eng).render
+func viaMethod(e *struct{ n Int }, s string) string
+
+func main() {
+	println("C05/linkchain/func", banner("x"))
+	println("C05/linkchain/method", viaMethod(&struct{ n Int }{2}, "y"))
+}
+`),
+		"stub.s": "// empty\n",
+		"engine/engine.go": r(`package engine
+
+import (
+	_ "unsafe"
+
+	_ "MOD/lowlevel"
+)
+
+type eng struct{ n Int }
+
+//go:linkname repeat MOD/lowlevel.repeat
+func repeat(s string, n Int) string
+
+// only reachable through main's linkname
+func banner(s string) string { return "[" + repeat(s, 3) + "]" }
+
+func (e *eng) render(s string) string { return "<" + repeat(s, e.n) + ">" }
+`),
+		"engine/stub.s":     "// empty\n",
+		"engine/int_js.go":  "//go:build js\n\npackage engine\n\ntype Int = int\n",
+		"engine/int_ref.go": "//go:build !js\n\npackage engine\n\ntype Int = int32\n",
+		"lowlevel/lowlevel.go": r(`package lowlevel
+
+import (
+	_ "unsafe"
+
+	_ "MOD/deepest"
+)
+
+//go:linkname pad MOD/deepest.pad
+func pad(s string) string
+
+// only reachable through engine's linkname
+func repeat(s string, n Int) string {
+	r := ""
+	for i := Int(0); i < n; i++ {
+		r += pad(s)
+	}
+	return r
+}
+`),
+		"lowlevel/stub.s":     "// empty\n",
+		"lowlevel/int_js.go":  "//go:build js\n\npackage lowlevel\n\ntype Int = int\n",
+		"lowlevel/int_ref.go": "//go:build !js\n\npackage lowlevel\n\ntype Int = int32\n",
+		"deepest/deepest.go": `package deepest
+
+// only reachable through lowlevel's linkname
+func pad(s string) string { return s + helper() }
+
+func helper() string { return "." }
+`,
+	}}
 }
